@@ -368,7 +368,7 @@ func (e *c15Env) preBalances(fn *fixNode, c *c15Case) (module.Transition, []*big
 
 func TestVerifC15(t *testing.T) {
 	r := ev.Start(t, "C15", "exploration")
-	r.Rule("pre-states: stepPrice {0,1,12.5e9} x balance(A),balance(B) from 6 boundary values {0,F-1,F,Fmsg,2F+1,1e6*F} (F=minimum fee; 4 values at price 0) x balance(C) {0,7}. Blocks of one transaction: sender A x recipient {A,B,C,treasury,code-less cx address} x {plain,message} x stepLimit {min-1 (message only),min,min+1,10*min,invokeLimit+default} x value {absent,0,1,bal-limit*price,bal-limit*price+1,bal}. Blocks of two transactions: first from A, second from A or B, thorough: same product with stepLimit {min-1 (message only),min,10*min}; quick: recipients {A,B,treasury,cx}, plain, stepLimit {min} for the first and {min,10*min} for the second, value {absent,1,bal-limit*price,bal-limit*price+1}. A case is one (pre-state, block); all cases are distinct and each is executed by a real transition")
+	r.Rule("pre-states: stepPrice {0,1,12.5e9} x balance(A),balance(B) from 6 boundary values {0,F-1,F,Fmsg,2F+1,1e6*F} (F=minimum fee; 4 values at price 0) x balance(C) {0,7} (quick: {0}). Blocks of one transaction: sender A x recipient {A,B,C,treasury,code-less cx address} x {plain,message} x stepLimit {min-1 (message only),min,min+1,10*min,invokeLimit+default} x value {absent,0,1,bal-limit*price,bal-limit*price+1,bal}. Blocks of two transactions: first from A, second from A or B, thorough: same product with stepLimit {min-1 (message only),min,10*min}; quick: recipients {A,B,treasury,cx}, plain, stepLimit {min} for the first and {min,10*min} for the second, value {absent,1,bal-limit*price,bal-limit*price+1}. A case is one (pre-state, block); all cases are distinct and each is executed by a real transition")
 	r.Assume("pre-states are produced by a real funding block (god account transfers the exact balances) executed on the finalized genesis state; case blocks are children of that (unfinalized) transition",
 		"blocks run as alreadyValidated transitions (the proposer path), so execution-time balance/step failures are reachable; the validating path is cross-checked separately",
 		"basic platform, revision 8, no fee sharing, concurrency level 1; accounts: three EOAs, treasury, god, one code-less contract address")
@@ -414,6 +414,9 @@ func TestVerifC15(t *testing.T) {
 	for pi, p := range c15Prices {
 		full := c15BalanceDomain(p, true)
 		small := c15BalanceDomain(p, false)
+		if r.Quick() {
+			small = small[:1] // quick: C starts empty only
+		}
 		for _, a := range full {
 			for _, b := range full {
 				for _, c := range small {
